@@ -2,6 +2,7 @@ import LitexModel.DriverLib
 import LitexModel.Soc.Bus
 import LitexModel.Soc.Loc
 import LitexModel.Soc.Cm
+import LitexModel.Soc.CsrBanks
 /-
   Driver of C13 (pure `call`s, one call history per line; `N` stands for Python `None`):
 
@@ -20,6 +21,9 @@ import LitexModel.Soc.Cm
   call loc irq <n_irqs> [<name>:<n> ...] ; <op> ; ...                                          (reserved_irqs)
       op:  A <name> <n|N> <use_loc_if_exists>   add;   P <name>   address_map;   E   enable
       ->   ctor-rej   |   <n_locs> # <verdicts> # name:loc name:loc ...
+  call banks <csr_data_width> <csr_address_width> <paging> <csr_base> [<name>:<loc> ...] ; B <name> <w>x<n> ... ; ...
+      SoC.finalize over CSR banks: fixed pages (add_csr) first, then one `B` per bank in scan order with its
+      registers as <bit width>x<count>  ->  rej:<err>  |  ok # name:page:nsimple:origin ...
   call cm <entry> ... ; <op> ; ...        entry = uid:name:num[:sub,sub,...]
       op:  Q <name> <num|N> <loose>   request;  QA <name>  request_all;  QR <name>  request_remaining;
            L <name> <num|N> <sub|N> <loose>  lookup_request;   X <prepend> <entry> ...   add_extension
@@ -125,6 +129,26 @@ def callCm (io : List Res) (ops : List CmOp) : String :=
   " # ".intercalate [unwords ((s0.outs ops).map showOut), unwords (s.available.map (toString ·.uid)),
     unwords (s.matched.map (toString ·.uid)), unwords (s.sigConstraints.map fun p => s!"{p.1}:{sOptNat p.2}")]
 
+/-! ### CSR banks at finalize -/
+
+def pBank : List String → Option (Bank Nat)
+  | "B" :: n :: ws => do
+    let groups ← ws.mapM fun w => match w.splitOn "x" with
+      | [a, b] => do some (List.replicate (← b.toNat?) (← a.toNat?))
+      | _ => none
+    some { name := ← n.toNat?, widths := groups.flatten }
+  | _ => none
+
+def callBanks (dwid awid pg base : Nat) (fixed : List (Nat × Int)) (banks : List (Bank Nat)) : String :=
+  match csrHandlerR Nat dwid awid 32 pg fixed with
+  | .error e => "rej:" ++ errName e
+  | .ok h =>
+    match h.finalizeBanks pg dwid banks with
+    | .error e => "rej:" ++ errName e
+    | .ok (_, l) =>
+      "ok # " ++ unwords (l.map fun p =>
+        s!"{p.1.name}:{p.2}:{simpleCount dwid p.1.widths}:{(base : Int) + (pg : Int) * p.2}")
+
 /-! ### dispatch -/
 
 def call (args : List String) : Option String :=
@@ -152,6 +176,12 @@ def call (args : List String) : Option String :=
     | res :: ops =>
       let ops ← (ops.filter (· ≠ [])).mapM pLocOp
       some (callLoc (irqHandlerR Nat (← n.toNat?) (← res.mapM pReserved)) ops)
+  | "banks" :: dwid :: awid :: pg :: base :: rest => do
+    match splitSemi rest with
+    | [] => none
+    | fixed :: banks =>
+      some (callBanks (← dwid.toNat?) (← awid.toNat?) (← pg.toNat?) (← base.toNat?) (← fixed.mapM pReserved)
+        (← (banks.filter (· ≠ [])).mapM pBank))
   | "cm" :: rest => do
     match splitSemi rest with
     | [] => none
